@@ -267,7 +267,9 @@ impl SwiftField for Field61 {
                 result.push_str(supplementary_details);
             }
         } else if let Some(ref supplementary_details) = self.supplementary_details {
-            // If no bank reference but supplementary details exist, append after customer ref
+            // No bank reference: supplementary details go on their own line, otherwise they would
+            // be read back as part of a customer reference shorter than 16 characters
+            result.push('\n');
             result.push_str(supplementary_details);
         }
 
